@@ -21,6 +21,9 @@ type verifLife struct {
 	results  []string
 	remote   int
 	backlog  int
+	// an arrival in progress: the read loop's getConn stopped before it counts the new connection
+	arrName string
+	arrAddr *net.UDPAddr
 }
 
 func (v *verifLife) newRemote() *net.UDPAddr {
@@ -33,6 +36,47 @@ func (v *verifLife) newRemote() *net.UDPAddr {
 func (v *verifLife) arrive() {
 	rm := v.newRemote()
 	v.ln.dispatchMsg(rm, []byte{1})
+	v.noteConn(rm)
+}
+
+// arriveBegin runs the dispatch of a new remote's first datagram as a managed goroutine up to the
+// point where getConn is about to count the connection (it holds connLock there).
+func (v *verifLife) arriveBegin() {
+	rm := v.newRemote()
+	v.arrAddr = rm
+	v.arrName = cosched.Go("r", func() { v.ln.dispatchMsg(rm, []byte{1}) })
+	for i := 0; i < 4; i++ {
+		st := ""
+		for _, p := range cosched.Positions() {
+			if p.Name == v.arrName {
+				st = p.State
+			}
+		}
+		if st == "done" || strings.Contains(st, ":wgadd#") {
+			break
+		}
+		cosched.Step(v.arrName, 2*time.Second)
+	}
+}
+
+func (v *verifLife) arriveEnd() {
+	for i := 0; i < 6; i++ {
+		done := false
+		for _, p := range cosched.Positions() {
+			if p.Name == v.arrName && p.State == "done" {
+				done = true
+			}
+		}
+		if done {
+			break
+		}
+		cosched.Step(v.arrName, 2*time.Second)
+	}
+	v.noteConn(v.arrAddr)
+	v.arrName, v.arrAddr = "", nil
+}
+
+func (v *verifLife) noteConn(rm *net.UDPAddr) {
 	v.ln.connLock.Lock()
 	c, ok := v.ln.conns[rm.String()]
 	v.ln.connLock.Unlock()
@@ -41,6 +85,16 @@ func (v *verifLife) arrive() {
 			v.ids[c] = len(v.ids)
 		}
 	}
+}
+
+// pcOf is the position letter of thread i as printed by line().
+func (v *verifLife) pcOf(i int) string {
+	f := strings.Fields(v.line())
+	pcs := strings.Split(f[len(f)-1], ",")
+	if i < len(pcs) {
+		return pcs[i]
+	}
+	return ""
 }
 
 func (v *verifLife) sockClosed() bool {
@@ -59,7 +113,10 @@ func (v *verifLife) line() string {
 		index[n] = i
 	}
 	for _, p := range pos {
-		i := index[p.Name]
+		i, known := index[p.Name]
+		if !known {
+			continue // an arrival in progress
+		}
 		switch {
 		case p.State == "done":
 			pcs[i] = v.results[i]
@@ -85,9 +142,13 @@ func (v *verifLife) line() string {
 	if v.sockClosed() {
 		k = "1"
 	}
-	v.ln.connLock.Lock()
+	if v.arrName == "" {
+		v.ln.connLock.Lock()
+	}
 	n := len(v.ln.conns)
-	v.ln.connLock.Unlock()
+	if v.arrName == "" {
+		v.ln.connLock.Unlock()
+	}
 	return fmt.Sprintf("k=%s q=%d n=%d %s", k, len(v.ln.acceptCh), n, strings.Join(pcs, ","))
 }
 
@@ -147,7 +208,9 @@ func verifLifeRun(o *vh.Out, id string, cfg []string, sched []string, r *vh.Rng)
 		ay := cosched.AtYield()
 		var op string
 		if sched != nil {
-			if step >= len(sched) {
+			if step >= len(sched) && v.arrName != "" {
+				op = "are"
+			} else if step >= len(sched) {
 				if len(ay) == 0 {
 					break
 				}
@@ -165,25 +228,46 @@ func verifLifeRun(o *vh.Out, id string, cfg []string, sched []string, r *vh.Rng)
 				op = sched[step]
 			}
 		} else {
-			if len(ay) == 0 {
-				break
-			}
-			if r.Chance(6) {
-				op = "arr"
-			} else {
-				nm := ay[r.Intn(len(ay))]
+			// threads that can be granted: not the arrival itself, and nobody who is about to take
+			// connLock while the arrival holds it
+			var cand []int
+			for _, nm := range ay {
 				for i, x := range v.names {
-					if x == nm {
-						op = fmt.Sprintf("g %d", i)
+					if x == nm && !(v.arrName != "" && v.pcOf(i) == "L") {
+						cand = append(cand, i)
 					}
 				}
+			}
+			switch {
+			case v.arrName != "" && (len(cand) == 0 || r.Chance(40)):
+				op = "are"
+			case len(cand) == 0:
+				op = ""
+			case v.arrName == "" && r.Chance(8):
+				op = []string{"arr", "arb", "arb"}[r.Intn(3)]
+			default:
+				op = fmt.Sprintf("g %d", cand[r.Intn(len(cand))])
+			}
+			if op == "" {
+				break
 			}
 		}
 		f := vh.Fields(op)
 		switch f[0] {
 		case "arr":
-			v.arrive()
-			cosched.Quiesce(2 * time.Second)
+			if v.arrName == "" {
+				v.arrive()
+				cosched.Quiesce(2 * time.Second)
+			}
+		case "arb":
+			if v.arrName == "" {
+				v.arriveBegin()
+			}
+		case "are":
+			if v.arrName != "" {
+				v.arriveEnd()
+				cosched.Quiesce(2 * time.Second)
+			}
 		case "g":
 			t := vh.Atoi(f[1])
 			ok := false
@@ -269,7 +353,7 @@ func TestVerifLife(t *testing.T) {
 		for _, c := range cs {
 			var sched []string
 			for _, f := range c.Ops {
-				if f[0] == "g" || f[0] == "arr" {
+				if f[0] == "g" || f[0] == "arr" || f[0] == "arb" || f[0] == "are" {
 					sched = append(sched, strings.Join(f, " "))
 				}
 			}
